@@ -2,6 +2,7 @@
    Only statements; proofs are in Proofs/. *)
 From Coq Require Import List NArith ZArith Permutation.
 Require Import Base Mol Partition Canon MolProofs PartitionProofs SameMol CanonProofs.
+Require ParamsSpec.   (* regenerated source constants still match what the model hard-codes *)
 
 (* For every oracle meeting the contract of a canonical-form algorithm (H2), two descriptions of one
    molecule get canonical graphs with the same label -> class map and the same edge set (and both
